@@ -3,14 +3,15 @@
 MC:   specs/StringTop.tla: MapStringTop (lookup, probabilistic routing to the tail, resample loop
       with a nondeterministic fold set, placement) and FinishStringTop transcribed from
       data_model/bucket.go; Conservation / FinishBound / FinishHeaviest stated on ghost state and
-      checked exhaustively (two instances: counter events over 4 values, counts {1,2,5},
-      capacities 1..3; value events for min/max/sum).
+      checked exhaustively (thorough: counter events over 4 values, counts {1,2,5}, capacities
+      default/1..3, all sequences of <= 6 events; counter and value events over 3 values for
+      min/max/sum; quick: a smaller instance).
 I->S: the event sequences TLC explored plus seeded random ones with the code's real capacities
       are executed on the real MultiItem with several RNG seeds (MapStringTop, MapStringTopBytes,
       MergeWithTLMultiItem, percentile rows); specs/StringTopTrace.tla checks every recorded step
       against the property-level successor relation and evaluates the invariants on the real
       Top / Tail."""
-import random, re
+import os, random, re
 from vlib import Infra
 
 REAL = {"DefaultStringTopCapacity": 100, "AggregatorStringTopCapacity": 1000,
@@ -38,20 +39,24 @@ def validate(ctx, path, stage):
 
 def run(ctx):
     th = ctx.thorough
+    selftest = os.environ.get("VERIF_SELFTEST") == "1"   # mutant runs: the model does not depend on the code
     # 1. the design
-    for cfg, what, consts in (
-            ("StringTop_mc_big.cfg" if th else "StringTop_mc.cfg", "counter events",
-             {"Values": 4, "Counts": [1, 2, 5], "Caps": [0, 1, 2, 3] if th else [1, 2, 3], "MaxOps": 6 if th else 5}),
-            ("StringTop_mcv_big.cfg" if th else "StringTop_mcv.cfg", "value events",
-             {"Values": 3, "Counts": [1, 2, 5] if th else [1, 2], "Xs": [1, 4], "Caps": [1, 2], "MaxOps": 4})):
+    quick = (("StringTop_mc.cfg", "counter and value events",
+              {"Values": 3, "Counts": [1, 5], "Xs": [1, 4], "Caps": [1, 2], "FinCaps": [-1, 1, 2], "MaxOps": 3}),)
+    big = (("StringTop_mc_big.cfg", "counter events",
+            {"Values": 4, "Counts": [1, 2, 5], "Caps": [0, 1, 2, 3], "FinCaps": [-1, 0, 1, 2, 3], "MaxOps": 6}),
+           ("StringTop_mcv_big.cfg", "counter and value events",
+            {"Values": 3, "Counts": [1, 2, 5], "Xs": [1, 4], "Caps": [1, 2], "FinCaps": [-1, 1, 2], "MaxOps": 4}))
+    for cfg, what, consts in () if selftest else (big if th else quick):
         mc = ctx.tlc("StringTopMC", cfg, timeout=3000 if th else 900, coverage=th, constants=consts,
                      name="StringTop (%s)" % what)
         ctx.require_model_ok(mc, "StringTop invariants (%s)" % what)
-    ctx.ev.set("exhaustive", True)
-    if th:
-        # non-vacuity: the invariants must fire on broken variants of the specification
+    ctx.ev.set("exhaustive", not selftest)
+    if th and not selftest:
+        # non-vacuity: the invariants must fire on broken variants of the specification, NeverStuck on
+        # the sample factor as the code computed it before the repair (`1 << n` in a machine int)
         for cfg, inv in (("StringTop_bad_drop.cfg", "Conservation"), ("StringTop_bad_light.cfg", "FinishHeaviest"),
-                         ("StringTop_bad_cap.cfg", "FinishBound")):
+                         ("StringTop_bad_cap.cfg", "FinishBound"), ("StringTop_orig_overflow.cfg", "NeverStuck")):
             r = ctx.tlc("StringTopMC", cfg, timeout=600, expect_violation=True, name="non-vacuity: " + inv, record=False)
             if r.violated != "invariant:" + inv:
                 raise Infra("%s does not fire on the broken specification %s (%s)" % (inv, cfg, r.violated))
@@ -61,9 +66,9 @@ def run(ctx):
     inputs = inputs_of(beh.behaviours)
     rnd = random.Random(ctx.seed)
     rnd.shuffle(inputs)
-    take = inputs[: (6000 if th else 1200)]
+    take = inputs[: (6000 if th else 500)]
     res, out, rc = ctx.go_test("internal/data_model", "TestVerifC07", inp=take,
-                               env={"VERIF_NRANDOM": 3000 if th else 400, "VERIF_NSEEDS": 4 if th else 3}, timeout=1500)
+                               env={"VERIF_NRANDOM": 3000 if th else 250, "VERIF_NSEEDS": 4 if th else 2}, timeout=1500)
     res = ctx.need_result(res, out, rc, "TestVerifC07")
     for k, v in REAL.items():
         if res.get("consts", {}).get(k) != v:
@@ -72,6 +77,10 @@ def run(ctx):
     if rc != 0 and not n:
         ctx.save("driver.log", out[-20000:])
         raise Infra("driver failed without a result")
+    if res["counters"].get("heavy_undecided"):
+        raise Infra("the heavy-count scenario neither returned nor showed a wrapped sample factor")
+    if not n and not res["counters"].get("heavy_runs"):
+        raise Infra("the heavy-count scenario did not run")
     if not res["counters"].get("runs_with_eviction") or not res["counters"].get("runs_with_resample"):
         raise Infra("no run exercised eviction: the driver is vacuous (%s)" % res["counters"])
     trace = res["files"][0]
